@@ -151,4 +151,14 @@ def main(argv=None):
 
 
 if __name__ == "__main__":
-    sys.exit(main())
+    try:
+        rc = main()
+    except SystemExit:
+        raise
+    except BaseException:  # a broken harness is never a verdict
+        import traceback
+
+        traceback.print_exc()
+        print("INCONCLUSIVE harness error (see traceback)")
+        rc = 3
+    sys.exit(rc)
